@@ -649,3 +649,101 @@ func GenDrift(r *lib.Rng, id int64, tier string) Case {
 	assemble(&c, [][]int{toRaw(x, signed)}, blocks, ctl, r)
 	return c
 }
+
+// GenTailReconf: a criterion-satisfying sample in the last nsamp-npre samples of a block (not decidable yet when the
+// block is processed), a control operation right after that block — ChangeTriggerState with the same or other
+// settings, or ConfigurePulseLengths with the same / other / refused lengths — then enough data to decide it.
+// Reconfiguring must not lose the pending sample.
+func GenTailReconf(r *lib.Rng, id int64, tier string) Case {
+	npre, nsamp := pickLengths(r)
+	shrink := r.Chance(1, 3) // long records with a long post-trigger part, later shortened drastically
+	if shrink {
+		npre = r.Pick([]int{3, 4, 5})
+		nsamp = r.Range(30, 48)
+	}
+	c := Case{ID: id, Npre: npre, Nsamp: nsamp, F0: pickF0(r), T0: int64(6e9), Note: "tail-reconf"}
+	setRate(r, &c)
+	signed := r.Chance(1, 3)
+	base := r.Pick([]int{1500, 30000})
+	if signed {
+		base = r.Pick([]int{-60, 10, 4000})
+	}
+	ts := TS{Edge: true, ERising: true, ELevel: int32(r.Pick([]int{100, 400})), LLevel: 4000, DelayNs: delayFor(&c, 100000)}
+	useLevel := r.Chance(1, 3)
+	if useLevel {
+		ts.Edge = false
+		ts.Level, ts.LRising, ts.LLevel = true, true, (base+200)&0xffff
+		if !signed {
+			ts.LLevel = base + 200
+		}
+	} else if r.Chance(1, 4) {
+		ts.Level, ts.LRising, ts.LLevel = true, true, (base+200)&0xffff
+		if !signed {
+			ts.LLevel = base + 200
+		}
+	}
+	nb := r.Range(2, 4)
+	var blocks []int
+	n := 0
+	for k := 0; k < nb; k++ {
+		b := r.Range(nsamp+2, 4*nsamp)
+		if k > 0 && r.Chance(1, 4) {
+			b = r.Range(1, nsamp)
+		}
+		blocks = append(blocks, b)
+		n += b
+	}
+	blocks = append(blocks, 3*nsamp+r.Range(0, nsamp)) // enough data afterwards
+	n += blocks[len(blocks)-1]
+	x := flat(n, base)
+	which := r.Intn(nb) // the block whose tail holds the pulse
+	end := 0
+	for k := 0; k <= which; k++ {
+		end += blocks[k]
+	}
+	tail := nsamp - npre
+	at := end - 1 - r.Intn(tail)
+	if r.Chance(1, 6) {
+		at = end - tail - r.Range(1, 2) // just decidable: control case
+	}
+	if shrink {
+		at = end - tail + r.Intn(4) // far from the block end: beyond what the short records' history would keep
+	}
+	if at < npre+3 {
+		at = npre + 3
+	}
+	addPulse(x, at, 1500, r.Pick([]int{3, nsamp, 3 * nsamp}))
+	cc := ChanCfg{Signed: signed, Restored: &ts}
+	c.Chans = []ChanCfg{cc}
+	ctl := map[int][]Op{}
+	var op Op
+	switch r.Intn(6) {
+	case 0, 1:
+		same := ts
+		op = Op{Op: "CT", Chans: []int{0}, TS: &same}
+	case 2:
+		other := ts
+		other.ELevel = 50
+		other.Edge = true
+		op = Op{Op: "CT", Chans: []int{0}, TS: &other}
+	case 3:
+		op = Op{Op: "CL", Nsamp: nsamp, Npre: npre}
+	case 4:
+		op = Op{Op: "CL", Nsamp: nsamp + r.Range(-1, 3), Npre: npre}
+		if op.Nsamp < npre+1 {
+			op.Nsamp = npre + 1
+		}
+	default:
+		op = Op{Op: "CL", Nsamp: 2, Npre: 2} // refused
+	}
+	if shrink {
+		op = Op{Op: "CL", Nsamp: 3 + r.Range(1, 5), Npre: 3}
+	}
+	ctl[which+1] = []Op{op}
+	if r.Chance(1, 4) { // a second control operation on top
+		same := ts
+		ctl[which+1] = append(ctl[which+1], Op{Op: "CT", Chans: []int{0}, TS: &same})
+	}
+	assemble(&c, [][]int{toRaw(x, signed)}, blocks, ctl, r)
+	return c
+}
